@@ -84,6 +84,32 @@ def base_price_of_tick_a(tick_a, dec_quote, dec_base, digits=30):
     return Context(prec=digits, rounding=ROUND_HALF_EVEN).plus(p)
 
 
+def liquidity_of_value_a(value_quote, dec_quote, tick_a, lower_a, upper_a):
+    """Liquidity (real-valued) that `value_quote` quote tokens buy in the range [lower_a, upper_a] of pool A
+    (token0 = quote, token1 = base) when the price sits at tick_a.  Liquidity figures of ranges of different
+    widths are not commensurable (the same money is 50x the liquidity in a 50x narrower range), so a tolerance
+    stated on amounts has to be carried over to a liquidity figure through this map.
+    One unit of liquidity holds 1/s - 1/sb of token0 and s - sa of token1 (s clamped to the range); a token1 unit
+    is worth 1/s^2 token0 units."""
+    s, sa, sb = (sqrt_price_real_cached(int(t)) for t in (tick_a, lower_a, upper_a))
+    sc = min(max(s, sa), sb)
+    per_unit = CTX.subtract(CTX.divide(1, sc), CTX.divide(1, sb))  # token0 held
+    per_unit = CTX.add(per_unit, CTX.divide(CTX.subtract(sc, sa), CTX.multiply(s, s)))  # token1 held, in token0
+    return frac(value_quote) * 10**dec_quote / Fraction(per_unit)
+
+
+_SQRT_CACHE = {}
+
+
+def sqrt_price_real_cached(tick):
+    r = _SQRT_CACHE.get(tick)
+    if r is None:
+        if len(_SQRT_CACHE) > 20000:
+            _SQRT_CACHE.clear()
+        r = _SQRT_CACHE[tick] = TM.sqrt_price_real(tick)
+    return r
+
+
 # ------------------------------------------------------------------ domain placement
 def safe_tick(t, bounds, lo=-MAX_ABS_TICK, hi=MAX_ABS_TICK, margin=2):
     """Nearest tick to t that is at least `margin` ticks away from every range bound of the script (ranges are
